@@ -70,6 +70,21 @@ Theorem C16_reports_exact : forall ps c, disciplined ps = true -> forall ws sche
 Proof. exact reports_exact. Qed.
 Print Assumptions C16_reports_exact.
 
+Theorem C16_setup_once : forall ps c, disciplined ps = true -> forall ws sched,
+  a_nset (alg (fst (run ps c (init_state c ws) sched))) <= 1.
+Proof. exact setup_once. Qed.
+Print Assumptions C16_setup_once.
+
+Theorem C16_algorithm_counters : forall ps c, disciplined ps = true -> forall ws sched,
+  let st := run ps c (init_state c ws) sched in
+  (a_win (alg (fst st)) = false ->
+     a_nf (alg (fst st)) = length (a_fed (alg (fst st))) /\
+     Z.of_nat (a_np (alg (fst st))) = (Z.of_nat (length (trials_of st)) + sumz (fun th => g_np (gh2 th)) (snd st))%Z) /\
+  (finished (snd st) = true ->
+     a_nf (alg (fst st)) = length (a_fed (alg (fst st))) /\ a_np (alg (fst st)) = length (trials_of st)).
+Proof. exact algorithm_counters. Qed.
+Print Assumptions C16_algorithm_counters.
+
 (* re-checked on every run against the programs regenerated from the current source *)
 Theorem C16_instance : disciplined Gen.SchedProg.progs = true.
 Proof. exact instance_disciplined. Qed.
